@@ -179,6 +179,26 @@ def tlc(module, cfg=None, workers=8, timeout=1800, simulate=None, depth=None, se
     return res
 
 
+def tlc_trace(module, trace_path, cfg=None, timeout=900, tag=None):
+    """Validate a recorded trace (ndjson) against a trace specification.
+    Returns dict(accepted, matched, total, next, states, wall)."""
+    r = tlc(module, cfg or module, workers=1, timeout=timeout, env={"TRACE": trace_path}, coverage=False,
+            deque=True, xmx="4g", tag=tag or (module + "-trace"))
+    total = sum(1 for line in open(trace_path) if line.strip())
+    info = {"accepted": False, "matched": None, "total": total, "next": None, "states": r["distinct"],
+            "generated": r["states"], "wall": r["wall"], "out": r["out"], "cfg": r["cfg"], "depth": r["depth"]}
+    m = re.search(r'<<"REJECTED", (".*")>>', r["out"])
+    if m:
+        d = json.loads(json.loads(m.group(1)))
+        info.update({"matched": d["matched"], "next": d["next"]})
+        return info
+    if r["ok"]:
+        info["accepted"] = True
+        info["matched"] = total
+        return info
+    raise ToolError("trace validation run failed (%s): %s\n%s" % (module, r["error"], r["out"][-3000:]))
+
+
 def tlc_must_pass(r):
     if not r["ok"]:
         tail = "\n".join(l for l in r["out"].splitlines() if not l.startswith('<<"'))[-5000:]
